@@ -41,6 +41,8 @@ type Broker struct {
 	hold     int      // >0: collect this many responses before writing any (several requests in flight)
 	holdCut  int      // cut position over the concatenation of the held frames (<0: none)
 	pending  [][]byte
+	rawResp  []byte // != nil: the next exchange is un-framed (sasl v0 token): [int32 len][bytes] both ways
+	rawCut   int
 	done     chan struct{}
 }
 
@@ -57,6 +59,14 @@ func Start(topic string, versions map[int16]int16) (*kafka.Conn, *Broker) {
 func (b *Broker) Push(key int16, r Resp) {
 	b.mu.Lock()
 	b.script[key] = append(b.script[key], r)
+	b.mu.Unlock()
+}
+
+// RawNext makes the next exchange (after the framed ones already scripted) an un-framed one: the broker reads
+// [int32 n][n bytes] and answers with `resp` as is, cut after `cut` bytes (cut < 0: whole), closing after a cut.
+func (b *Broker) RawNext(resp []byte, cut int) {
+	b.mu.Lock()
+	b.rawResp, b.rawCut = append([]byte{}, resp...), cut
 	b.mu.Unlock()
 }
 
@@ -152,6 +162,32 @@ func (b *Broker) serve() {
 			return
 		}
 		n := int(binary.BigEndian.Uint32(hdr[:]))
+		b.mu.Lock()
+		raw, rawCut := b.rawResp, b.rawCut
+		b.mu.Unlock()
+		if raw != nil && n < 8 {
+			tok := make([]byte, n)
+			if _, err := io.ReadFull(b.srv, tok); err != nil {
+				return
+			}
+			b.mu.Lock()
+			b.rawResp = nil
+			b.mu.Unlock()
+			cut := rawCut >= 0 && rawCut < len(raw)
+			if cut {
+				raw = raw[:rawCut]
+			}
+			wq <- outFrame{raw, cut}
+			if cut {
+				for i := 0; i < 2000; i++ {
+					if _, err := b.srv.Read(hdr[:1]); err != nil {
+						break
+					}
+				}
+				return
+			}
+			continue
+		}
 		if n < 8 || n > 64<<20 {
 			return
 		}
